@@ -172,9 +172,10 @@ def matrix(ctx: Ctx):
             bps = flow.paths_of_block(body)
             import math
             good = True
+            cost_keys = {"cost"} | {flow.dump(q.env["cost"]) for q in bps if "cost" in q.env}
             for c_ in (0, 1, 2, math.inf):
                 for ub in (-math.inf, 0, 1, 2):
-                    ev = cmp.Evaluator({"cost": c_, "upper_bound": ub}, {})
+                    ev = cmp.Evaluator({**{k: c_ for k in cost_keys}, "upper_bound": ub}, {})
                     p_ = cmp.taken_path(bps, ev)
                     if p_ is None:
                         good = False
